@@ -516,11 +516,14 @@ scenarios! {
             acc
         })
     }
-    "buffered: next and next_frames (array, Vec rings)" => |seed, n| {
-        steady(|| (signal::noise(seed).buffered(Bounded::from([0.0f64; 16])), signal::from_iter(frames_f32x2(seed, n)).buffered(Bounded::from(vec![[0.0f32; 2]; 7]))), |st| {
-            let (a, b) = st;
+    "buffered: next and next_frames (array, Vec rings of 7 and of 100 .. 299 frames)" => |seed, n| {
+        steady(|| (signal::noise(seed).buffered(Bounded::from([0.0f64; 16])), signal::from_iter(frames_f32x2(seed, n)).buffered(Bounded::from(vec![[0.0f32; 2]; 7])), signal::noise(seed ^ 5).buffered(Bounded::from(vec![0.0f64; 100 + (seed % 200) as usize]))), |st| {
+            let (a, b, long) = st;
             let mut acc = 0u64;
             for k in 0..n / 4 {
+                // a ring of 100 .. 299 frames: refilled every so many calls, once through next() and once through next_frames()
+                mixf(&mut acc, long.next());
+                if k % 64 == 63 { for f in long.next_frames() { mixf(&mut acc, f); } }
                 mixf(&mut acc, a.next() + b.next()[0] as f64);
                 if k % 3 == 0 { for f in a.next_frames().take(k % 20) { mixf(&mut acc, f); } }
                 if k % 5 == 0 { for f in b.next_frames() { mixf(&mut acc, f[1] as f64); } }
